@@ -172,6 +172,7 @@ def statements(depth):
     S.append(("def2_qubit", ["DEF_KW", "IDENT", "L_PAREN", slot("TYPE"), "IDENT", "COMMA", "QUBIT_KW", "IDENT", "R_PAREN", ARROW, "BIT_TY",
                              "L_CURLY", "RETURN_KW", "MEASURE_KW", "IDENT", "SEMICOLON", "R_CURLY"]))
     S.append(("def_qreg_param", ["DEF_KW", "IDENT", "L_PAREN", "QUBIT_KW", "L_BRACK", "INT_NUMBER", "R_BRACK", "IDENT", "R_PAREN", "L_CURLY", "R_CURLY"]))
+    S.append(("def_arrayref_param", ["DEF_KW", "IDENT", "L_PAREN", slot("ARRMOD"), "ARRAY_KW", "L_BRACK", "INT_TY", "COMMA", "INT_NUMBER", "R_BRACK", "IDENT", "R_PAREN", "L_CURLY", "R_CURLY"]))
     S.append(("def_array_param", ["DEF_KW", "IDENT", "L_PAREN", slot("ARRMOD"), "ARRAY_KW", "L_BRACK", "INT_TY", "L_BRACK", "INT_NUMBER", "R_BRACK", "COMMA", "DIM_KW", "EQ", "INT_NUMBER",
                                   "R_BRACK", "IDENT", "R_PAREN", "L_CURLY", "R_CURLY"]))
     S.append(("def_return_void", ["DEF_KW", "IDENT", "L_PAREN", "R_PAREN", "L_CURLY", "RETURN_KW", "SEMICOLON", "R_CURLY"]))
